@@ -183,16 +183,18 @@ class ModuleFinder:
         """
         module_path: Path | list[Path]
         if isinstance(module, Path):
-            module_name, module_path = self._module_name_path(module)
-            top_module_name = self._top_module_name(module_path)
+            _, module_path = self._module_name_path(module)
+            module_name = self._dotted_module_name(module_path)
+            top_module_name = module_name.split(".", 1)[0]
         elif try_relative_path:
             try:
-                module_name, module_path = self._module_name_path(Path(module))
+                _, module_path = self._module_name_path(Path(module))
             except FileNotFoundError:
                 module_name = module
                 top_module_name = module.split(".", 1)[0]
             else:
-                top_module_name = self._top_module_name(module_path)
+                module_name = self._dotted_module_name(module_path)
+                top_module_name = module_name.split(".", 1)[0]
         else:
             module_name = module
             top_module_name = module.split(".", 1)[0]
@@ -420,21 +422,33 @@ class ModuleFinder:
                 if os.path.splitext(relfile)[1] in self.extensions_set:  # noqa: PTH122
                     yield Path(root, relfile)
 
-    def _top_module_name(self, path: Path) -> str:
-        # First find if a parent is in search paths.
-        parent_path = path if path.is_dir() else path.parent
-        # Always resolve parent path to compare for relativeness against resolved search paths.
-        parent_path = parent_path.resolve()
+    def _dotted_module_name(self, path: Path) -> str:
+        # The path of the module without extension: the directory of a package, or the file without its suffix.
+        if path.is_dir():
+            module_path = path
+        elif path.stem == "__init__":
+            module_path = path.parent
+        else:
+            module_path = path.with_suffix("")
+        # Always resolve the path to compare for relativeness against resolved search paths.
+        module_path = module_path.resolve()
+        # First find if the module is in search paths
+        # (a module directly in a search path is a top-level module).
         for search_path in self.search_paths:
-            with suppress(ValueError, IndexError):
-                rel_path = parent_path.relative_to(search_path.resolve())
-                return rel_path.parts[0]
-        # If not, get the highest directory with an `__init__` module,
-        # add its parent to search paths and return it.
-        while parent_path.parent != parent_path and (parent_path.parent / "__init__.py").exists():
+            with suppress(ValueError):
+                rel_path = module_path.relative_to(search_path.resolve())
+                if rel_path.parts:
+                    return ".".join(rel_path.parts)
+        # If not, get the highest directory with an `__init__` module above the module,
+        # add its parent to search paths and return the module name relative to it
+        # (a module in a directory without `__init__` module is a top-level module).
+        parts = [module_path.name]
+        parent_path = module_path.parent
+        while parent_path.parent != parent_path and (parent_path / "__init__.py").exists():
+            parts.insert(0, parent_path.name)
             parent_path = parent_path.parent
-        self.insert_search_path(0, parent_path.parent)
-        return parent_path.name
+        self.insert_search_path(0, parent_path)
+        return ".".join(parts)
 
 
 _re_pkgresources = re.compile(r"(?:__import__\([\"']pkg_resources[\"']\).declare_namespace\(__name__\))")
